@@ -645,7 +645,19 @@ where
         let mut terminate_rx = self.terminate_rx.take().unwrap();
         let mut send_task_ended = false;
 
+        // Once Goodbye has been received the receive task ends and no longer watches the
+        // connection timeout, thus sending of our own Goodbye must be limited separately.
+        let mut goodbye_timeout = future::pending().boxed().fuse();
+        let mut goodbye_timeout_armed = false;
+
         while !(self.goodbye_sent && self.goodbye_received && send_task_ended) {
+            if self.goodbye_received && !goodbye_timeout_armed {
+                if let Some(timeout) = self.local_cfg.connection_timeout {
+                    goodbye_timeout = sleep(timeout).boxed().fuse();
+                }
+                goodbye_timeout_armed = true;
+            }
+
             let send_prep_task = async {
                 // Obtain permit to ensure that space is available in transport send queue.
                 let permit = match send_tx.reserve().await {
@@ -710,6 +722,9 @@ where
 
                 // Receive task failed.
                 Err(err) = &mut recv_task => return Err(err),
+
+                // Transport stalled while sending Goodbye.
+                () = &mut goodbye_timeout => return Err(ChMuxError::Timeout),
             }
         }
 
